@@ -1545,8 +1545,13 @@ class Server:
         return await self.stor(connection, rest, "ab")
 
     async def rest(self, connection, rest):
-        if rest.isdigit():
-            connection.restart_offset = int(rest)
+        try:
+            # str.isdigit accepts characters (e.g. superscripts) that int rejects
+            offset = int(rest) if rest.isdigit() else None
+        except ValueError:
+            offset = None
+        if offset is not None:
+            connection.restart_offset = offset
             connection.response("350", f"restarting at {rest}")
         else:
             connection.restart_offset = 0
